@@ -444,19 +444,21 @@ var siteRemotes = []string{"192.0.2.1:1234", "10.1.2.3:80", "[2001:db8:1:2::abcd
 
 func genSite(r *core.Rand) *script {
 	sc := &script{creds: r.Chance(1, 4), e: r.Intn(3), hc: r.Pick([]string{"d", "d", "n", "k", "w", "m"}), rw: r.Intn(3),
-		route: r.Pick([]string{"ok", "err", "herr", "px", "px", "pxe", "rl", "rle", "fcg"}), remote: r.Pick(siteRemotes)}
+		route: r.Pick([]string{"ok", "err", "herr", "px", "px", "pxe", "rl", "rle", "fcg", "up", "up", "rlu", "hr", "rt", "ic"}), remote: r.Pick(siteRemotes)}
 	if r.Chance(1, 3) {
 		sc.e = 0
 	}
 	switch sc.route {
-	case "ok", "px", "rl":
+	case "ok", "px", "rl", "hr", "rt", "ic":
 		sc.status = []int{200, 204, 302, 404, 500, 503}[r.Intn(6)]
+	case "up", "rlu":
+		sc.status = 101
 	case "herr":
 		sc.status = []int{400, 401, 403, 404, 500, 502}[r.Intn(6)]
 	default:
 		sc.status = 200
 	}
-	plain := sc.route == "rl" || sc.route == "rle"
+	plain := sc.route == "rl" || sc.route == "rle" || sc.route == "rlu"
 	sc.tin = genHeaders(r, plain, []string{"cookie", "authorization", "proxy-authorization", "set-cookie"}, 3)
 	if r.Chance(1, 2) {
 		sc.tadd = genHeaders(r, plain, []string{"cookie", "authorization", "proxy-authorization"}, 2)
@@ -464,10 +466,36 @@ func genSite(r *core.Rand) *script {
 	if r.Chance(2, 3) {
 		sc.tset = genHeaders(r, plain, []string{"set-cookie", "set-cookie", "authorization"}, 2)
 	}
-	if sc.route == "px" || sc.route == "rl" {
+	switch sc.route {
+	case "px", "rl", "hr", "rt", "up", "rlu":
+		// upstream RESPONSE headers: the credential names and the challenge headers that only look like them
 		sc.tup = genHeaders(r, plain, []string{"set-cookie", "set-cookie", "cookie", "proxy-authorization", "authorization"}, 3)
+		if r.Chance(1, 3) {
+			sc.tup[r.Pick([]string{"Proxy-Authenticate", "WWW-Authenticate", "Authentication-Info"})] = []string{"Basic realm=\"pub-" + newToken(r)[:8] + "\""}
+		}
 	}
-	if len(sc.tup) > 0 && sc.status != 204 && r.Chance(1, 4) {
+	if sc.route == "up" || sc.route == "rlu" {
+		// a protocol upgrade: the client asks for it, the upstream answers 101 with the same token
+		proto := r.Pick([]string{"websocket", "WebSocket", "h2c-verif"})
+		sc.tin["Connection"], sc.tin["Upgrade"] = []string{"Upgrade"}, []string{proto}
+		sc.tup["Connection"], sc.tup["Upgrade"] = []string{"Upgrade"}, []string{proto}
+		if r.Chance(1, 2) {
+			sc.tin["Sec-WebSocket-Key"] = []string{"dGhlIHNhbXBsZSBub25jZQ=="}
+			sc.tup["Sec-Websocket-Accept"] = []string{"s3pPLMBiTxaQ9kYGzzhZRbK+xOo="}
+		}
+		if r.Chance(1, 8) {
+			sc.tup["Upgrade"] = []string{"other"} // the backend switches to an unexpected protocol
+		}
+		if sc.route == "up" && r.Chance(1, 3) {
+			// the same over HTTP/2: extended CONNECT with :protocol websocket
+			delete(sc.tin, "Connection")
+			delete(sc.tin, "Upgrade")
+			delete(sc.tin, "Sec-WebSocket-Key")
+			sc.tin[":protocol"] = []string{"websocket"}
+			sc.tup["Upgrade"] = []string{"websocket"}
+		}
+	}
+	if len(sc.tup) > 0 && sc.status != 204 && sc.status != 101 && r.Chance(1, 4) {
 		// the upstream also sends trailer fields, announced or not
 		for i := 1 + r.Intn(2); i > 0; i-- {
 			base := r.Pick([]string{"Set-Cookie", "Set-Cookie", "Authorization", "X-Checksum"})
@@ -489,7 +517,7 @@ func genSite(r *core.Rand) *script {
 	// http.TrailerPrefix keys exist in RESPONSE header maps only (a request's trailers are in r.Trailer)
 	for _, t := range []hdrTab{sc.tin, sc.tadd} {
 		for k := range t {
-			if strings.Contains(k, ":") {
+			if strings.Contains(k, ":") && k != ":protocol" {
 				delete(t, k)
 			}
 		}
